@@ -330,7 +330,9 @@ func evalTG(c *Ctx, cs *TGCase, vr map[string]*gen.VRes, props map[string]bool) 
 		return out
 	}
 	if genFailed > 0 {
-		add("C08", "", nil, "generation succeeded for some variants and failed for others")
+		// no parser to compare for some variant: C12/C16's business, not a disagreement between parsers
+		c.Exclude("generation succeeded for some variants and failed for others (C12/C16's business)")
+		add("C12", "", nil, "generation succeeded for some variants and failed for others")
 		return out
 	}
 	for _, v := range variants {
